@@ -105,23 +105,45 @@ func (b *backend) setCompactRecord(ctx context.Context, revision uint64) error {
 }
 
 func (b *backend) getCompactBorders() [][]byte {
-	// exclude skipped key prefix
-	var keyPrefixes []string
-	keyPrefixes = append(keyPrefixes, b.config.Prefix)
-	keyPrefixes = append(keyPrefixes, b.config.SkippedPrefixes...)
-
-	// construct compact borders
-	var compactBorders [][]byte
-	for _, key := range keyPrefixes {
+	dir := func(key string) string {
 		if !strings.HasSuffix(key, "/") {
 			key = key + "/"
 		}
-		compactBorders = append(compactBorders, b.coder.EncodeObjectKey([]byte(key), 0))
-		compactBorders = append(compactBorders, b.coder.EncodeObjectKey(PrefixEnd([]byte(key)), 0))
+		return key
 	}
-	// sort to make sure compact in right range
-	sort.Slice(compactBorders, func(i, j int) bool {
-		return bytes.Compare(compactBorders[i], compactBorders[j]) < 0
+	prefix := dir(b.config.Prefix)
+	start, end := []byte(prefix), PrefixEnd([]byte(prefix))
+
+	// the skipped ranges below the prefix in key order; a skipped prefix that is not a directory
+	// below the prefix (e.g. a sibling that merely shares its leading characters) has nothing to cut out
+	type keyRange struct{ start, end []byte }
+	var skipped []keyRange
+	for _, key := range b.config.SkippedPrefixes {
+		key = dir(key)
+		if !strings.HasPrefix(key, prefix) {
+			continue
+		}
+		skipped = append(skipped, keyRange{start: []byte(key), end: PrefixEnd([]byte(key))})
+	}
+	sort.Slice(skipped, func(i, j int) bool {
+		return bytes.Compare(skipped[i].start, skipped[j].start) < 0
 	})
+
+	// compact what lies between the skipped ranges; a range nested in or equal to an earlier one
+	// ends before the cursor and changes nothing
+	var compactBorders [][]byte
+	cur := start
+	for _, s := range skipped {
+		if bytes.Compare(s.end, cur) <= 0 {
+			continue
+		}
+		if bytes.Compare(s.start, cur) > 0 {
+			compactBorders = append(compactBorders, b.coder.EncodeObjectKey(cur, 0), b.coder.EncodeObjectKey(s.start, 0))
+		}
+		cur = s.end
+	}
+	if bytes.Compare(cur, end) < 0 {
+		compactBorders = append(compactBorders, b.coder.EncodeObjectKey(cur, 0), b.coder.EncodeObjectKey(end, 0))
+	}
 	return compactBorders
 }
